@@ -12,6 +12,7 @@ mod extract;
 mod c11;
 mod c06;
 mod c10;
+mod c17;
 mod jsonmut;
 
 use std::collections::HashMap;
@@ -59,6 +60,7 @@ fn main() {
         "c11" => c11::run(&o),
         "c06" => c06::run(&o),
         "c10" => c10::run(&o),
+        "c17" => c17::run(&o),
         "c09" => c01::run_c09(&o),
         other => {
             eprintln!("unknown stream {other}");
